@@ -1,7 +1,7 @@
 (* C12 — Checkpoints restore to exactly the checkpointed state.
    Only statements; proofs are in Ckpt/*.v.  Model: Ckpt/Model.v. *)
 From Verif Require Import Lib.Base Mkvs.Trie Mkvs.TrieProofs Mkvs.HashProofs
-  Ckpt.Model Ckpt.Proofs Ckpt.ParProofs Ckpt.RestoreProofs Ckpt.Examples Ckpt.Main Ckpt.Stack Ckpt.StackProofs Ckpt.EstProofs Ckpt.StackSim Ckpt.Frame Ckpt.Files Gen.CkptConsts.
+  Ckpt.Model Ckpt.Proofs Ckpt.ParProofs Ckpt.RestoreProofs Ckpt.Examples Ckpt.Main Ckpt.Stack Ckpt.StackProofs Ckpt.EstProofs Ckpt.StackSim Ckpt.Frame Ckpt.Files Ckpt.Fault Gen.CkptConsts.
 From Coq Require Import Permutation.
 
 (* sequential chunker: the key runs visited by the chunks, concatenated, are
@@ -348,3 +348,40 @@ Theorem served_chunk_is_written_chunk_without_truncate_refuted :
     serve (write_chunks foverwrite 0 files fs0) (N.of_nat k) <> nth_error files k.
 Proof. exact overwrite_in_place_refuted. Qed.
 Print Assumptions served_chunk_is_written_chunk_without_truncate_refuted.
+
+(* ---- read errors during creation (the sequential chunker) ---- *)
+(* the walk over a node database whose reads can fail: [ok j] = the reads that
+   reach key number j succeed.  When the error is looked at both inside the loop
+   and when the next offset is peeked, a creation that reports success produced
+   exactly the fault-free chunks, which cover the tree *)
+Theorem create_success_covers : forall ok size t runs,
+  seq_create true true ok size t = Some runs -> runs = seq_runs size t /\ concat runs = contents t.
+Proof. exact create_success_covers_l. Qed.
+Print Assumptions create_success_covers.
+
+(* THE CODE does not look at the error of the it.Next() that peeks the next
+   offset (chunk.go:117-120): for it the statement is refuted -- a creation
+   that reports success but covers only a prefix of the keys (known finding
+   C12:seq-chunker-swallows-read-error-when-peeking-next-offset) *)
+Theorem create_success_covers_code_refuted :
+  exists ok size t runs, wf t /\ seq_create_code ok size t = Some runs /\ concat runs <> contents t.
+Proof. exact create_success_covers_code_refuted_l. Qed.
+Print Assumptions create_success_covers_code_refuted.
+
+(* ... and so it is for the variant that also drops the error inside the loop *)
+Theorem create_success_covers_without_loop_check_refuted :
+  exists ok size t runs, wf t /\ seq_create false false ok size t = Some runs /\ concat runs <> contents t.
+Proof. exact create_success_covers_without_loop_check_refuted_l. Qed.
+Print Assumptions create_success_covers_without_loop_check_refuted.
+
+(* what every variant guarantees on success: a prefix of the keys, in order;
+   and without faults every variant is the chunker of the model *)
+Theorem create_success_prefix : forall c1 c2 ok size t runs,
+  seq_create c1 c2 ok size t = Some runs -> exists rest, contents t = concat runs ++ rest.
+Proof. exact create_success_prefix_l. Qed.
+Print Assumptions create_success_prefix.
+
+Theorem create_no_fault : forall c1 c2 size t,
+  seq_create c1 c2 (fun _ => true) size t = Some (seq_runs size t).
+Proof. exact create_no_fault_l. Qed.
+Print Assumptions create_no_fault.
